@@ -7,6 +7,7 @@ mod layout;
 mod oracle;
 mod props;
 mod txnsys;
+mod upgrade;
 
 use common::Tier;
 
